@@ -336,7 +336,7 @@ class L:
             n += 1
         return True, '%d concrete vectors: IR execution == native build' % n
 
-    def spec_rhs(self, spec, ctx, info, fc):
+    def spec_rhs(self, spec, ctx, info, fc, stp=None):
         """right-hand side of out*R == RHS - d*p*R; returns (RHS, kind)"""
         p = fc['p']
         if spec.op in ('mul', 'decode', 'encode', 'square', 'sop2', 'sop4'):
@@ -345,7 +345,9 @@ class L:
                 for i in range(4):
                     for j in range(4):
                         S = ctx.add(S, ctx.mulc(ctx.mul(a[i], b[j]), 1 << (64 * (i + j))))
-            ks = [kt for kt in ctx.kterms if kt[1] == fc['inv']]
+            # the quotient digits of THIS path, in execution order (a data-dependent branch inside the reduction makes
+            # them differ between paths)
+            ks = [kt for kt in (stp.klog if stp is not None else ctx.kterms) if kt[1] == fc['inv']]
             if len(ks) != 4:
                 raise Unsupported('expected 4 Montgomery quotient digits (x * inv mod 2^64), found %d' % len(ks))
             K = sum(z(kt[0]) * (1 << (64 * i)) for i, kt in enumerate(ks))
@@ -370,6 +372,19 @@ class L:
             res_r.vacuity = res_v.vacuity = msg
             if not ok:
                 raise Unsupported(msg)
+            # structured native witnesses first (a few seconds): boundary values, top-heavy tuples, quotient-digit corner
+            # cases. A reproduced mismatch is reported at once; the solver then only has to speak for trees that pass them
+            w0 = self.quick_witnesses(spec) if search_cex else None
+            if w0 is not None:
+                res_v.status = 'violated'
+                res_v.model = w0
+                res_v.detail = 'native replay reproduces: %s(%s) = %x, expected %x' % (self.native_name(spec), ','.join('%x' % x for x in w0['inputs']), w0['native'], w0['expected'])
+                res_r.status, res_r.detail = ('violated', res_v.detail) if w0['native'] >= p else ('inconclusive', 'not decided: a value counterexample was found first')
+                if res_r.status == 'violated':
+                    res_r.model = w0
+                res_r.seconds = res_v.seconds = (time.time() - t0) / 2
+                self.results += [res_r, res_v]
+                return res_r, res_v
             ctx, st = Ctx(), State()
             ex = Exec(self.mod, ctx, self.consts, max_paths=256, loop_bound=8)
             info = self.run_kernel(spec, ctx, st, ex, fc)
@@ -391,6 +406,7 @@ class L:
             npaths, status_r, status_v, det_v = 0, 'proved', 'proved', []
             H0 = None
             bad_models = []
+            quick_models = []
             canary_ok = False
             # pass 1: range goal and a quick direct attempt at the value goal on every path; pass 2: the paths still
             # open are decided by the staged proof (through the un-subtracted result H of a proven path), and only
@@ -426,7 +442,7 @@ class L:
                     else:
                         status_v = 'sat' if r == 'sat' else ('inconclusive' if status_v != 'sat' else status_v)
                     continue
-                RHS = self.spec_rhs(spec, ctx, info, fc)
+                RHS = self.spec_rhs(spec, ctx, info, fc, stp)
                 r, d, n, mdl = prove_delta(ctx, h, OUT, RHS, p, spec.deltas, budgets[:1], self.seed)
                 res_v.queries += n
                 dbg('path %d value quick %s' % (npaths, r))
@@ -443,10 +459,31 @@ class L:
                             canary_ok = True
                 else:
                     todo.append((npaths, h, OUT, RHS))
+                    if r == 'sat':
+                        quick_models.append(mdl)
             # global lemma for the staged proof, proven ONCE without any path condition:
             #   (c*R + H)*R == RHS for some carry c in {0..cmax},  H = the un-subtracted result (same SSA terms on all paths)
             # It is then added as a hypothesis to the per-path goals, which reduces them to linear reasoning about
             # the conditional subtraction (the Montgomery identity is not re-derived under every path condition).
+            # before any long budget is spent on the open paths: cheap native witnesses, then the path-targeted exact search
+            early = None
+            if search_cex and (todo or range_open):
+                if early is None:
+                    openp = [(pn_, h_, OUT_) for pn_, h_, OUT_, _ in todo] + [(pn_, v_[0], v_[1]) for pn_, v_ in range_open.items() if pn_ not in [x_[0] for x_ in todo]]
+                    early = self.targeted_search(spec, ctx, info, fc, openp, [v_[3] for v_ in range_open.values()] + quick_models)
+                    res_v.queries += getattr(self, 'targeted_queries', 0)
+                dbg('early witness search: %s' % ('found' if early else 'none'))
+            if early is not None:
+                w = early
+                res_v.status = 'violated'
+                res_v.model = w
+                res_v.detail = 'native replay reproduces: %s(%s) = %x, expected %x' % (self.native_name(spec), ','.join('%x' % x for x in w['inputs']), w['native'], w['expected'])
+                res_r.status, res_r.detail = ('violated', res_v.detail) if w['native'] >= p else (('proved', '%d paths, all canonical' % npaths) if not range_open else ('inconclusive', 'range goals left open; a value counterexample was found first'))
+                if res_r.status == 'violated':
+                    res_r.model = w
+                res_r.seconds = res_v.seconds = (time.time() - t0) / 2
+                self.results += [res_r, res_v]
+                return res_r, res_v
             lemma = None
             if False and (todo or todo_range) and H0 is not None:  # measured: not helpful on this encoding (see DESIGN 11.3)
                 Hv = z(value(ctx, H0))
@@ -550,7 +587,86 @@ class L:
             c.append(rnd.randrange(p))
         return c
 
-    def find_real_cex(self, spec, budget_ms):
+    def targeted_search(self, spec, ctx, info, fc, open_paths, models, cap_s=600):
+        """path-targeted witness search on the paths pass 1 left open, WITHOUT re-executing: the second operand(s) are
+        replaced by concrete limbs in the path's formulas (z3.substitute), every product M(x, c) is then the linear term
+        x*c, and the path condition + negated specification is an EXACT linear-integer query over the first operand(s).
+        A model is a real input driving the execution down this (possibly rare) path with a wrong result; it is
+        replayed natively before anything is reported."""
+        if spec.op not in ('mul', 'sop2', 'sop4'):
+            return None
+        import random
+        p = fc['p']
+        nat = self.native_name(spec)
+        half = spec.nops // 2
+        rnd = random.Random(23 + self.seed)
+        cands = []
+        for mdl in models:
+            if mdl is None:
+                continue
+            try:
+                cands.append([sum(mdl.eval(x, model_completion=True).as_long() << (64 * i) for i, x in enumerate(v)) % p for v in info['ins'][half:]])
+            except Exception:
+                pass
+        cands = cands[:2]
+        cands.append([p - 1 - i for i in range(half)])
+        cands.append([p - 1 - rnd.randrange(1 << 200) for _ in range(half)])
+        cands.append([rnd.randrange(p) for _ in range(half)])
+        t_end = time.time() + cap_s
+        for c in cands:
+            sub = []
+            for v, cv in zip(info['ins'][half:], c):
+                for i, x in enumerate(v):
+                    if not isinstance(x, int):
+                        sub.append((x, z3.IntVal((cv >> (64 * i)) & (W - 1))))
+            subids = set(x.get_id() for x, _ in sub)
+            lin = []
+            for (t, x, y) in ctx.mul_apps.values():
+                if x.get_id() in subids or y.get_id() in subids:
+                    lin.append(z3.substitute(t, *sub) == z3.substitute(x, *sub) * z3.substitute(y, *sub))
+            for pn, h, OUT in open_paths:
+                if time.time() > t_end:
+                    return None
+                S = z3.IntVal(0)
+                ok_ = True
+                for (a, b) in info['prod']:
+                    va, vb = [z3.simplify(z3.substitute(z(value(ctx, o_)), *sub)) for o_ in (a, b)]
+                    if z3.is_int_value(vb):
+                        S = S + va * vb.as_long()
+                    elif z3.is_int_value(va):
+                        S = S + vb * va.as_long()
+                    else:
+                        ok_ = False
+                if not ok_:
+                    return None
+                OUTs = z3.substitute(OUT, *sub)
+                hs = [z3.substitute(x, *sub) for x in h if isinstance(x, z3.ExprRef)]
+                bad = z3.Or((OUTs * RR - S) % p != 0, OUTs >= p, OUTs < 0)
+                sv = z3.Solver()
+                sv.set('timeout', 15000)
+                sv.set('random_seed', self.seed)
+                sv.add(*ctx.relevant_back_subst(list(h) + [OUT], sub))
+                sv.add(*lin)
+                sv.add(*hs)
+                sv.add(bad)
+                self.targeted_queries = getattr(self, 'targeted_queries', 0) + 1
+                if sv.check() != z3.sat:
+                    continue
+                mdl = sv.model()
+                inputs = [sum((x if isinstance(x, int) else mdl.eval(x, model_completion=True).as_long()) << (64 * i) for i, x in enumerate(v)) for v in info['ins'][:half]] + list(c)
+                try:
+                    got = native_kernel(nat, inputs)
+                    want = ref_kernel(nat, inputs, p)
+                except Exception:
+                    continue
+                if got != want:
+                    return dict(op=nat, inputs=inputs, native=got, expected=want)
+        return None
+
+    def quick_witnesses(self, spec):
+        return self.find_real_cex(spec, 0, stage0_only=True)
+
+    def find_real_cex(self, spec, budget_ms, stage0_only=False):
         """with all operands but the first concrete the encoding is EXACT (no uninterpreted product):
         ask the solver for a first operand violating the specification, then replay natively"""
         fc = field_consts(self.consts, spec.which)
@@ -583,8 +699,42 @@ class L:
                 want = ref_kernel(nat, inputs, p)
                 if got != want:
                     return dict(op=nat, inputs=inputs, native=got, expected=want)
-        except Exception:
-            pass
+            # quotient-digit corner cases of the Montgomery reduction: operands for which the digit of row i is exactly 0
+            # (the working limb is already zero) or 2^64-1 while the upper half is heavy (carries pending between rows).
+            # T = sum a_j*b_j must satisfy T = -K*p (mod 2^(64(i+1))) with digit i of K equal to 0 / 2^64-1: the low
+            # part of the first operand is solved from that congruence (second operand odd), the rest is random top-heavy
+            if spec.op in ('mul', 'sop2', 'sop4', 'decode'):
+                half = max(1, nops // 2)
+                for trial in range(60):
+                    for row in (1, 2, 3):
+                        for digit in (0, W - 1):
+                            sh = 64 * (row + 1)
+                            mod_ = 1 << sh
+                            K_ = rnd.randrange(1 << (64 * row)) | (digit << (64 * row))
+                            if spec.op == 'decode':
+                                bs, as_ = [1], [0]
+                            else:
+                                bs = [(top - 1 - rnd.randrange(1 << 250)) | 1 for _ in range(half)]
+                                as_ = [top - 1 - rnd.randrange(1 << 250) for _ in range(half)]
+                            rest = sum(x * y for x, y in zip(as_[1:], bs[1:]))
+                            low = ((-K_ * p - rest) * pow(bs[0], -1, mod_)) % mod_
+                            hi_ = (top - 1 - rnd.randrange(1 << 250)) >> sh << sh
+                            a0 = hi_ | low
+                            if a0 >= top:
+                                a0 -= mod_
+                            if a0 < 0 or bs[0] >= top:
+                                continue
+                            inputs = ([a0] + as_[1:] + bs) if spec.op != 'decode' else [a0]
+                            got = native_kernel(nat, inputs)
+                            want = ref_kernel(nat, inputs, p)
+                            if got != want:
+                                return dict(op=nat, inputs=inputs, native=got, expected=want)
+        except Exception as e_:
+            if os.environ.get('VERIF_LDEBUG'):
+                import traceback
+                traceback.print_exc()
+        if stage0_only:
+            return None
         t_end = time.time() + max(600, budget_ms / 1000.0 * 6)
         fixed_sets = [None]
         if spec.op == 'mul':
